@@ -959,7 +959,7 @@ VARIANTS = [
     Variant("C03-m-sort-noreverse", "R03.2", "mutant", [(_F, "mm_pairs, key=lambda x: x[0], reverse=not matching_metric.decreasing", "mm_pairs, key=lambda x: x[0]")]),
     Variant("C03-m-sort-conditional", "R03.2", "mutant", [(_F, "    mm_pairs = sorted(\n        mm_pairs, key=lambda x: x[0], reverse=not matching_metric.decreasing\n    )\n", "    if matching_metric.decreasing:\n        mm_pairs = sorted(mm_pairs, key=lambda x: x[0], reverse=False)\n")]),
     Variant("C03-m-pairs-crossed", "R03.2", "mutant", [(_F, "(reference_arr, prediction_arr, i[0], i[1])", "(reference_arr, prediction_arr, i[1], i[0])")]),
-    Variant("C03-m-pairs-order", "R03.2", "mutant", [(_F, "(i, (instance_pairs[idx][2], instance_pairs[idx][3]))", "(i, (instance_pairs[idx][3], instance_pairs[idx][2]))")]),
+    Variant("C03-m-pairs-order", "R03.", "mutant", [(_F, "(i, (instance_pairs[idx][2], instance_pairs[idx][3]))", "(i, (instance_pairs[idx][3], instance_pairs[idx][2]))")]),
     Variant("C03-t-sort-increasing", "R03.2", "twin", [(_F, "reverse=not matching_metric.decreasing", "reverse=matching_metric.increasing")]),
     Variant("C03-t-sort-inplace", "R03.2", "twin", [(_F, "    mm_pairs = sorted(\n        mm_pairs, key=lambda x: x[0], reverse=not matching_metric.decreasing\n    )\n", "    mm_pairs.sort(key=lambda x: x[0], reverse=not matching_metric.decreasing)\n")]),
     Variant("C03-t-sort-len-guard", "R03.2", "twin", [(_F, "    mm_pairs = sorted(\n        mm_pairs, key=lambda x: x[0], reverse=not matching_metric.decreasing\n    )\n", "    if len(mm_pairs) > 1:\n        mm_pairs = sorted(mm_pairs, key=lambda x: x[0], reverse=not matching_metric.decreasing)\n")]),
